@@ -234,8 +234,9 @@ class Normalize(Command):
         start = kwargs.get("StartVal", 0)
         end = kwargs.get("EndVal", 1)
 
-        arr_min = arr.min()
-        arr_max = arr.max()
+        # As floats: an integer grid would otherwise be shifted and scaled in its own element type (int8 / uint8 / int16 wrap around)
+        arr_min = float(arr.min())
+        arr_max = float(arr.max())
 
         return (arr - arr_min) * (start - end) / (arr_min - arr_max) + start
 
